@@ -8,6 +8,7 @@ import (
 	"fmt"
 	"io"
 	"math/rand"
+	"net"
 	"os"
 	"sort"
 	"strconv"
@@ -599,6 +600,10 @@ func (r *rxRunner) runFail(id int, ps []wPkg, cuts []int, off int, kind string, 
 	switch kind {
 	case "eof", "eofdata":
 		ferr = io.EOF
+	case "closed": // the errors a closed socket / pipe reports (the peer's end, a proxy, the operating system)
+		ferr = &net.OpError{Op: "read", Net: "tcp", Err: net.ErrClosed}
+	case "closedpipe":
+		ferr = io.ErrClosedPipe
 	case "resetdata":
 		ferr = failErr{"connection reset by peer"}
 	case "reset":
@@ -1172,6 +1177,13 @@ func rxMain(args []string) error {
 			break // enough calls ran into the watchdog: the trace so far decides
 		}
 		ps := randResponse(rng, 20, 0)
+		if i%3 == 1 {
+			// a response that does not fit into a packet of the size in force: as one packet it is larger
+			// than anything the client itself would send (the server is free to do so)
+			for try := 0; try < 20 && len(respBytes(ps)) < 700; try++ {
+				ps = randResponse(rng, 1500, 0)
+			}
+		}
 		resp := respBytes(ps)
 		n := len(resp)
 		tr.Reset(map[string]interface{}{"driver": "reads", "seed": *seed, "i": i})
@@ -1546,12 +1558,12 @@ func rxMain(args []string) error {
 			cs = withEmpty(rng, cs, n)
 		}
 		total := n + 8*(len(cs)+1)
-		kinds := []string{"eof", "reset", "timeout", "eofdata", "resetdata"}
+		kinds := []string{"eof", "reset", "timeout", "eofdata", "resetdata", "closed", "closedpipe"}
 		for off := 0; off <= total; off++ {
 			if *failStep > 1 && off%*failStep != i%*failStep && off != total {
 				continue
 			}
-			kind := kinds[(off+i)%5]
+			kind := kinds[(off+i)%len(kinds)]
 			var chunks []int
 			if rng.Intn(2) == 0 {
 				left := off
